@@ -304,7 +304,7 @@ func TestC05(t *testing.T) {
 	}
 	r.Extra["alphabet_size"] = len(ops)
 	r.Extra["depth"] = depth
-	r.Rule = fmt.Sprintf("breadth-first search over client-visible states of a persistent swamp (write interval 1 s and immediate-write), %d operations on keys a,b (Set of 15 content types x zero/non-zero x with/without the five metadata fields; Delete; IncrementInt32/Float64/Uint8 by 0 and by 5 with metadata; Uint32SlicePush/Delete; PatchTreasures creating a body with zero-like fields, clearing the expiry), depth %d; a state is expanded once (first history reaching it); each transition replays the history on a fresh in-process server on the in-memory file system and adds one call. In every visited state: reading (IsSwampExist, Get a,b, GetByIndex KEY, Count) -> swamp.Close() -> re-summon from the file -> same reading; the readings must be equal. Non-trivial = states holding at least one record", len(ops), depth)
+	r.Rule = fmt.Sprintf("breadth-first search over client-visible states of a persistent swamp (write interval 1 s and immediate-write), %d operations on keys a,b (Set of 15 content types x zero/non-zero x with/without the five metadata fields; Delete; IncrementInt32/Float64/Uint8 by 0 and by 5 with metadata; Uint32SlicePush/Delete; PatchTreasures creating a body with zero-like fields, clearing the expiry), depth %d; a state is expanded once (first history reaching it); each transition replays the history on a fresh in-process server on the in-memory file system and adds one call. In every visited state: reading (IsSwampExist, Get a,b, GetByIndex KEY, Count) -> swamp.Close() -> re-summon from the file -> same reading; the readings must be equal. Second part, without state merging (what is queued for the writer and what is on disk is hidden state): EVERY history of length <= 5 (thorough 6) over {Set(a,1), Set(a,2), Delete(a), Inc(a), write-interval Flush, CloseReopen} next to an untouched record, same differential at the end. Non-trivial = states holding at least one record", len(ops), depth)
 	r.Assumptions = []string{"the swamp is closed through swamp.Close(), the function the idle-close listener and GracefulStop call", "requests are issued one at a time by a single client thread under the controlled scheduler (virtual clock advanced 1 s per call)"}
 	confs := []string{"dsk", "imm"}
 	first := !r.IsWorker() || r.Mine(0)
@@ -386,6 +386,94 @@ func TestC05(t *testing.T) {
 				}
 			}
 		}
+		c05lifecycle(r)
 	})
 	_ = logs
+}
+
+// c05lifecycle: the same close/reload differential over EVERY history (no state merging: what is in the write queue
+// and what is on disk is hidden state) of a small alphabet that moves one key through its storage life cycle - set,
+// overwrite, delete, increment, write-interval flush, close and re-open - next to a record that is never touched.
+func c05lifecycle(r *kit.Run) {
+	type lop struct {
+		name string
+		run  func(rg *rigT, sw string)
+	}
+	set := func(v int32) func(rg *rigT, sw string) {
+		return func(rg *rigT, sw string) {
+			rg.gw.Set(bg, &hydrapb.SetRequest{Swamps: []*hydrapb.SwampRequest{{IslandID: 1, SwampName: sw, CreateIfNotExist: true, Overwrite: true, KeyValues: []*hydrapb.KeyValuePair{{Key: "a", Int32Val: p(v)}}}}})
+		}
+	}
+	ops := []lop{
+		{"Set(a,1)", set(1)},
+		{"Set(a,2)", set(2)},
+		{"Delete(a)", func(rg *rigT, sw string) {
+			rg.gw.Delete(bg, &hydrapb.DeleteRequest{Swamps: []*hydrapb.DeleteRequest_SwampKeys{{IslandID: 1, SwampName: sw, Keys: []string{"a"}}}})
+		}},
+		{"Inc(a)", func(rg *rigT, sw string) {
+			rg.gw.IncrementInt32(bg, &hydrapb.IncrementInt32Request{IslandID: 1, SwampName: sw, Key: "a", IncrementBy: 1})
+		}},
+		{"Flush", func(rg *rigT, sw string) { rg.flush(sw) }},
+		{"CloseReopen", func(rg *rigT, sw string) { rg.closeSwamp(sw) }},
+	}
+	maxLen := 5
+	if !r.Quick() {
+		maxLen = 6
+	}
+	var hists [][]int
+	forEachSeq(len(ops), maxLen, func(idx int, seq []int) bool {
+		hists = append(hists, append([]int(nil), seq...))
+		return true
+	})
+	var on []string
+	for _, o := range ops {
+		on = append(on, o.name)
+	}
+	r.Extra["lifecycle_alphabet"] = on
+	r.Extra["lifecycle_histories"] = len(hists)
+	results := make([]*c05result, len(hists))
+	want := func(i int) bool { return r.Mine(i) && !r.OutOfTime() }
+	bad := rigBatch(len(hists), want, func(rg *rigT, i int) {
+		sw := fmt.Sprintf("dsk/r/l%d", i)
+		rg.gw.Set(bg, &hydrapb.SetRequest{Swamps: []*hydrapb.SwampRequest{{IslandID: 1, SwampName: sw, CreateIfNotExist: true, Overwrite: true, KeyValues: []*hydrapb.KeyValuePair{{Key: "z", Int32Val: p(int32(9))}}}}})
+		var res c05result
+		for _, o := range hists[i] {
+			vrt.Advance(1e9)
+			ops[o].run(rg, sw)
+		}
+		res.before = c05snapshot(rg, sw)
+		res.closed = rg.closeSwamp(sw)
+		res.after = c05snapshot(rg, sw)
+		rg.destroy(sw)
+		results[i] = &res
+	})
+	if r.OutOfTime() {
+		r.NotExhaustive("time budget reached in the life-cycle histories")
+	}
+	for i, h := range hists {
+		var hn []string
+		for _, x := range h {
+			hn = append(hn, ops[x].name)
+		}
+		cs := map[string]any{"configuration": "dsk", "history": hn}
+		if x, ok := bad[i]; ok {
+			r.Eval(1)
+			r.Fail("reload", "lifecycle:request-never-returns", fmt.Sprintf("history %v: deadlock=%v panics=%v", hn, x.Deadlock, x.Panics), cs)
+			continue
+		}
+		res := results[i]
+		if res == nil {
+			continue
+		}
+		r.Eval(1)
+		r.Nontrivial("life" + fmt.Sprint(h))
+		if res.before != res.after {
+			for _, k := range c05classify(res.before, res.after) {
+				if strings.Contains(res.before, "a:absent") && !strings.Contains(res.after, "a:absent") {
+					k = "deleted-record-comes-back"
+				}
+				r.Fail("reload", "lifecycle:"+k, fmt.Sprintf("[dsk, record z=9 present] history %v: before close {%s} after reload {%s}", hn, res.before, res.after), cs)
+			}
+		}
+	}
 }
